@@ -360,28 +360,53 @@ def reg_reads(e, out):
 
 
 def compatible(c1, c2):
-    n = min(len(c1), len(c2))
-    return c1[:n] == c2[:n]
+    """Two operations can lie on one path unless, at the first point where their contexts differ, they sit in different
+    alternatives of the same if / match (call and loop labels are sequential, not alternatives)."""
+    for a, b in zip(c1, c2):
+        if a != b:
+            ha, hb = a.rsplit(":", 1)[0], b.rsplit(":", 1)[0]
+            return not (ha == hb and a.startswith(("if@", "match@")))
+    return True
 
 
-def hazards(res):
+def named_reads(e, names, out):
+    if not ilshape.is_il(e):
+        return out
+    s = e[2]
+    if s[0] == "scalar" and s[1] in names:
+        out.add("named:" + s[1])
+    elif s[0] == "op":
+        for a in s[2]:
+            named_reads(a, names, out)
+    return out
+
+
+def hazards(res, regnames=frozenset()):
     """(write op, read op, written id, read id): an operand register is read by a later operation on the same path after
     another operand register - possibly the same architectural register - was written."""
     out = []
     ops = res.ops
     for i, w in enumerate(ops):
         wid = w.get("dst_id")
+        if not wid and isinstance(w.get("dst"), str) and w["dst"] in regnames:
+            wid = "named:" + w["dst"]
         if not wid or w["kind"] not in ("Assign", "Load"):
             continue
         for r in ops[i + 1:]:
             if not compatible(w["ctx"], r["ctx"]):
                 continue
+            if "ends" in w:
+                scope, br = w["ends"]
+                if r["ctx"][:len(scope)] == scope and r["ctx"][:len(br)] != br:
+                    continue
             reads = set()
             for f in ("src", "addr", "target"):
                 if r.get(f) is not None:
                     reg_reads(r[f], reads)
+                    named_reads(r[f], regnames, reads)
             for rid in sorted(reads):
-                if rid != wid:
+                # two architectural names are distinct registers; an operand may be any register
+                if rid != wid and not (rid.startswith("named:") and wid.startswith("named:")):
                     out.append((w, r, wid, rid))
     return out
 
